@@ -96,14 +96,20 @@ func (p Plugin) CalculateRealloc(ctx context.Context, nodename string, resource 
 	var numaMemory cpumemtypes.NUMAMemory
 
 	if req.CPUBind {
-		cpuPlans := schedule.GetCPUPlans(nodeResourceInfo, originResource.CPUMap, p.config.Scheduler.ShareBase, p.config.Scheduler.MaxShare, newReq)
-		if len(cpuPlans) == 0 {
-			return nil, coretypes.ErrInsufficientResource
-		}
+		if canKeepCPUBinding(nodeResourceInfo.GetAvailableResource(), originResource, newReq) {
+			// no CPU change: the workload stays on the cores (and NUMA node) it already has
+			cpuMap = originResource.CPUMap
+			numaNodeID = originResource.NUMANode
+		} else {
+			cpuPlans := schedule.GetCPUPlans(nodeResourceInfo, originResource.CPUMap, p.config.Scheduler.ShareBase, p.config.Scheduler.MaxShare, newReq)
+			if len(cpuPlans) == 0 {
+				return nil, coretypes.ErrInsufficientResource
+			}
 
-		cpuPlan := cpuPlans[0]
-		cpuMap = cpuPlan.CPUMap
-		numaNodeID = cpuPlan.NUMANode
+			cpuPlan := cpuPlans[0]
+			cpuMap = cpuPlan.CPUMap
+			numaNodeID = cpuPlan.NUMANode
+		}
 		if len(numaNodeID) > 0 {
 			numaMemory = cpumemtypes.NUMAMemory{numaNodeID: newReq.MemRequest}
 		}
@@ -140,6 +146,27 @@ func (p Plugin) CalculateRealloc(ctx context.Context, nodename string, resource 
 }
 
 // CalculateRemap .
+// canKeepCPUBinding reports whether a bound workload whose CPU request does not change
+// can keep its current cores: they must still be free (the workload's own usage has been
+// given back to available) and the new memory request must fit where the workload is.
+func canKeepCPUBinding(available *cpumemtypes.NodeResource, origin *cpumemtypes.WorkloadResource, newReq *cpumemtypes.WorkloadResourceRequest) bool {
+	if len(origin.CPUMap) == 0 || newReq.CPURequest != origin.CPURequest {
+		return false
+	}
+	for cpu, pieces := range origin.CPUMap {
+		if available.CPUMap[cpu] < pieces {
+			return false
+		}
+	}
+	if newReq.MemRequest > available.Memory {
+		return false
+	}
+	if len(origin.NUMANode) > 0 && newReq.MemRequest > available.NUMAMemory[origin.NUMANode] {
+		return false
+	}
+	return true
+}
+
 func (p Plugin) CalculateRemap(ctx context.Context, nodename string, workloadsResource map[string]plugintypes.WorkloadResource) (*plugintypes.CalculateRemapResponse, error) {
 	resp := &plugintypes.CalculateRemapResponse{}
 	engineParamsMap := map[string]*cpumemtypes.EngineParams{}
